@@ -288,6 +288,7 @@ example : CmdGrammar.parseLine "goto Foo-x10".toList = .ok (.goto (.label "Foo".
 example : CmdGrammar.parseLine "break add ^3".toList = .ok (.breakAdd (.pcOffset 3)) := by decide
 example : CmdGrammar.parseLine "s i 0".toList = .ok (.stepInto 1#16) := by decide
 example : CmdGrammar.parseLine "a".toList = .ok (.assembly (.pcOffset 0)) := by decide
+example : CmdGrammar.parseLine "print".toList = .ok (.print (.mem (.pcOffset 0))) := by decide
 example : CmdGrammar.parseLine "mov r1 5".toList = .err := by decide      -- misspelling
 example : CmdGrammar.parseLine "goto r1".toList = .err := by decide       -- register ≠ address
 example : CmdGrammar.parseLine "eval  add r0, r0, #1".toList =
